@@ -78,6 +78,10 @@ def _twins(syn, rng, res):
             return
 
 
+class ListingNotRepeatable(Exception):
+    pass
+
+
 def _listed(cls, text, rng, res):
     """Build the descriptor object from a handle; what the caller does with the handle afterwards (closing it at the end of a
     `with` block, re-using the buffer for the next file) is its own business and does not change the configuration's disks."""
@@ -92,7 +96,16 @@ def _listed(cls, text, rng, res):
         fh.write("<Envelope/>")
         fh.seek(0)
     res["sets"].setdefault("handle_after_construction", []).append(after)
-    return sorted(obj.disks())
+    first = sorted(obj.disks())
+    # the list is a function of the configuration: asking again - also after a caller only peeked at the first entry of an
+    # earlier listing - gives the same list
+    if rng.random() < 0.5:
+        next(iter(obj.disks()), None)
+    again = sorted(obj.disks())
+    res["cnt"]["repeated_listings"] = res["cnt"].get("repeated_listings", 0) + 1
+    if again != first:
+        raise ListingNotRepeatable(f"disks() gave {first} and then {again} on the same object")
+    return first
 
 
 def run(case: dict, ctx) -> dict:
